@@ -19,7 +19,8 @@ CHECKS = {
               "codes. The model (Quant/Fixed.v) is compared exactly, float32 bit pattern by bit pattern, with the eager TensorFlow "
               "implementation at every rounding breakpoint +-1ulp, edges, zeros/denormals and random tensors."
               " The float32 bridge is proved (Quant/FLExact.v): the rounding function fl of the float model is the identity on every k*2^e with |k| < 2^24 in the normal range, hence every representable code times its step IS a float32 value (C01_code_times_step_is_a_float32_value, C01_qbits_output_is_a_float32_value)."
-              " Translator lingen.py -> coq/gen/LinGen.v + Link/LinLink.v: get_clip_bounds of quantized_linear IS (smallest code, largest code) and max()/min() are those codes times the quantization scale the codes are multiplied by, for every multi-bit configuration (regenerated every run). Quantizers are also built by assigning the modifiable attribute symmetric after construction."),
+              " Translator lingen.py -> coq/gen/LinGen.v + Link/LinLink.v: get_clip_bounds of quantized_linear IS (smallest code, largest code) and max()/min() are those codes times the quantization scale the codes are multiplied by, for every multi-bit configuration (regenerated every run). Quantizers are also built by assigning the modifiable attribute symmetric after construction."
+              " Translator qbitsgen.py -> coq/gen/QBitsGen.v + Link/QBitsLink.v: the value the legacy quantized_bits.__call__ computes on its data-independent path is scale * code * 2^step for a code inside [lo, hi] of the declared format, for every configuration (multi-bit and sign form), scale and rational input."),
         design_ref="DESIGN.md section 5 C01, section 10, section 10.10",
         note=(TB_COMMON + "TensorFlow float32 kernels are modelled as exact rational arithmetic inside the hypothesis |x| < 2^24 output-grid "
               "steps (exactness argument in DESIGN.md 2.2); hard/smooth sigmoid use the explicit 24-bit rounding function fl of Base/FL.v; "
@@ -32,7 +33,8 @@ CHECKS = {
               "within half a step, outside it is the end code; codes are monotone in the rational input; quantized_bits (alpha in {None,1}), "
               "plain quantized_relu are idempotent; quantized_linear's clip-then-round equals round-then-clip. Same exact correspondence as C01 "
               "plus direct nearest / monotone / q(q(x)) evaluation on the implementation."
-              " Translator lingen.py -> coq/gen/LinGen.v + Link/LinLink.v: _scale_clip_and_round of quantized_linear is rround(rclip lo hi (x/qs)) = ql_code and the quantized value of __call__ is ql_val for every multi-bit configuration, positive scale and rational input, so the LinearThm theorems (idempotent, monotone, nearest) are about the regenerated code."),
+              " Translator lingen.py -> coq/gen/LinGen.v + Link/LinLink.v: _scale_clip_and_round of quantized_linear is rround(rclip lo hi (x/qs)) = ql_code and the quantized value of __call__ is ql_val for every multi-bit configuration, positive scale and rational input, so the LinearThm theorems (idempotent, monotone, nearest) are about the regenerated code."
+              " Translator qbitsgen.py -> coq/gen/QBitsGen.v + Link/QBitsLink.v: the legacy quantized_bits.__call__ (x*m/m_i rounded, clipped, rescaled; sign form without unsigned bits) computes exactly qb_val of the model, so the FixedThm theorems (half-step, saturation, monotone, idempotent) are about the regenerated code."),
         design_ref="DESIGN.md section 5 C02, section 10",
         note=(TB_COMMON + "Same modelling assumptions as C01. The non-idempotence of legacy quantized_bits with a constant alpha != 1 is "
               "a recorded known finding (refuted lemma with witness)."),
